@@ -164,6 +164,20 @@ func runC05(e *Env) error {
 				}
 			}
 		}
+		if ci%7 == 5 && len(cur.Tables) > 0 {
+			// a populated table that carries the name the planner gives its temporary copy (`new_<t>`) next to a
+			// table <t> that is rebuilt: the apply may be refused, it must not take the bystander's rows
+			t := hx.Pick(r, cur.Tables)
+			if dt := des.table(t.Name); dt != nil && cur.table("new_"+t.Name) == nil {
+				by := g.newTable()
+				by.Name = "new_" + t.Name
+				cur.Tables = append(cur.Tables, by)
+				cp := (&sqSchema{Tables: []*sqTable{by}}).clone().Tables[0]
+				des.Tables = append(des.Tables, cp)
+				dt.Checks = append(dt.Checks, sqCheck{Expr: fmt.Sprintf("id > -%d", 20+r.Intn(9))})
+				edits = append(edits, &sqEdit{"add-check", t.Name, "next to a table named new_" + t.Name})
+			}
+		}
 		if r.Chance(1, 3) {
 			// the desired definition lists the same columns in another order (not a change)
 			t := hx.Pick(r, des.Tables)
@@ -263,6 +277,38 @@ func c05Run(ctx context.Context, pool *hx.Pool, c *c05Case, cur, des *sqSchema, 
 	}
 	if err := drv.ApplyChanges(ctx, changes); err != nil {
 		es := err.Error()
+		if strings.Contains(es, "already exists") && strings.Contains(es, "new_") {
+			// refused because the temporary name is taken: nothing may have been lost
+			for _, t := range cur.Tables {
+				// (statements planned before the refused one may have run: a table may have gained columns or
+				// lost dropped ones, but no row and no value of a surviving column may be gone)
+				after, rerr := tableRows(db, t.Name)
+				lost := rerr != nil
+				for id, old := range before[t.Name] {
+					now, ok := after[id]
+					if !ok {
+						lost = true
+						break
+					}
+					for col, v := range old {
+						oc, nc := t.col(col), (*sqCol)(nil)
+						if dt := des.table(t.Name); dt != nil {
+							nc = dt.col(col)
+						}
+						if oc == nil || nc == nil || nc.Type != oc.Type || oc.Gen != "" || nc.Gen != "" {
+							continue // dropped, retyped or generated: as in the monitor of a completed apply
+						}
+						if nv, still := now[col]; still && nv != v && v != "NULL" {
+							lost = true
+						}
+					}
+				}
+				if lost && des.table(t.Name) != nil {
+					add("failing-input", "rows-lost", fmt.Sprintf("the apply is refused (%s) but table %s lost rows or values (%v)\ncurrent:\n%s\ndesired:\n%s", trunc(es, 120), t.Name, rerr, strings.Join(c.Current, ";\n"), strings.Join(c.Desired, ";\n")), "Props.C05 row_count_preserved")
+				}
+			}
+			return "refused: the temporary table name is taken", touched, viols
+		}
 		if strings.Contains(es, "constraint failed") || strings.Contains(es, "cannot store") || strings.Contains(es, "datatype mismatch") {
 			return "data: rows do not satisfy the desired constraints", touched, viols
 		}
